@@ -296,9 +296,102 @@ def r13_5(prog: Program, chk: Check) -> None:
                f"{c['n']} annotations, {c['bad']} failing" + (f"; smallest: {wit[0]}" if wit else ""), witness=wit)  # type: ignore[index]
 
 
+# ------------------------------------------------------------------- R13.6
+def _signature_chunk(args):
+    part, nparts, stride = args
+    from ..model import AnchorError as _AE
+    from ..model import Program as _P
+    from . import annot_model as amod
+    from . import signature_model as smod
+
+    model = smod.SignatureModel(_P())
+    ns = amod.namespace()
+    classes: Dict[str, Dict[str, object]] = {}
+    unsupported = []
+    n = 0
+
+    def note(key: str, bad: bool, d) -> None:
+        c = classes.setdefault(key, {"n": 0, "bad": 0, "witness": []})
+        c["n"] += 1  # type: ignore[operator]
+        if bad:
+            c["bad"] += 1  # type: ignore[operator]
+            w = c["witness"]
+            w.append(d)  # type: ignore[union-attr]
+            w.sort(key=lambda x: (len(x["definition"]), repr(x)))  # type: ignore[union-attr]
+            del w[3:]  # type: ignore[arg-type]
+
+    for idx, src in enumerate(smod.definitions(stride)):
+        if idx % nparts != part:
+            continue
+        n += 1
+        d = {"definition": src}
+        try:
+            rd = model.via_def(src, ns)
+            ri = model.via_inspect(src, ns)
+        except _AE as e:
+            unsupported.append({**d, "why": str(e)[:300]})
+            continue
+        if rd[0] == "crash" or ri[0] == "crash":
+            note("no builder raises", True, {**d, "error": rd[1] if rd[0] == "crash" else ri[1]})
+            continue
+        note("no builder raises", False, d)
+        pd, retd, _ = rd
+        pi, reti, _ = ri
+        kd = [smod.param_key(x) for x in pd]
+        ki = [smod.param_key(x) for x in pi]
+        dd = {**d, "from_def": [smod.describe_param(x) for x in pd], "from_inspect": [smod.describe_param(x) for x in pi]}
+        note("names and order", [k[0] for k in kd] != [k[0] for k in ki], dd)
+        note("kinds", [k[1] for k in kd] != [k[1] for k in ki], dd)
+        note("defaults", [k[2] for k in kd] != [k[2] for k in ki], dd)
+        note("annotations (up to the representations of `no annotation`)", [k[3] for k in kd] != [k[3] for k in ki], dd)
+        if not src.startswith("async") and retd is not None:
+            note("return annotation", retd != reti, {**d, "from_def": amod.describe(retd), "from_inspect": amod.describe(reti)})
+    return n, classes, unsupported
+
+
+def r13_6(prog: Program, chk: Check) -> None:
+    import multiprocessing as mp
+    import os as _os
+
+    chk.rule(
+        "R13.6",
+        "the two signature builders as a finite model: functions.compute_parameters (with _visit_default, translate_vararg_type) on the def node and ArgSpecCache.from_signature / "
+        "_make_sig_parameter / _get_type_for_parameter on the inspect.Signature that CPython builds for the same def are interpreted from their AST (annotations through the "
+        "annotation routes of R13.5, ParameterKind read from its class body) on ~800 def headers over every parameter kind, defaults, annotations (also quoted), bare `*`, `/`, "
+        "double-underscore names, sync and async: names, kinds, defaults and annotations of the parameters agree (the three representations of `no annotation` are identified)",
+        floor=4,
+    )
+    selftest = bool(_os.environ.get("VERIF_SELFTEST"))
+    procs = 2 if selftest else min(16, _os.cpu_count() or 1)
+    stride = 8 if selftest else 1 if chk.tier == "thorough" else 3
+    with mp.get_context("fork").Pool(procs) as pl:
+        results = pl.map(_signature_chunk, [(i, procs * 2, stride) for i in range(procs * 2)])
+    total = 0
+    merged: Dict[str, Dict[str, object]] = {}
+    unsupported = []
+    for n, classes, uns in results:
+        total += n
+        unsupported += uns
+        for k, c in classes.items():
+            m = merged.setdefault(k, {"n": 0, "bad": 0, "witness": []})
+            m["n"] += c["n"]  # type: ignore[operator]
+            m["bad"] += c["bad"]  # type: ignore[operator]
+            m["witness"] = sorted(list(m["witness"]) + list(c["witness"]), key=lambda x: (len(x["definition"]), repr(x)))[:3]  # type: ignore[arg-type]
+    chk.model_evaluations += total * 2
+    chk.analysed["signature_model"] = {"definitions": total, "not_modelled": len(unsupported)}
+    site = prog.site("functions", prog.func("functions", "compute_parameters"))
+    for k, c in sorted(merged.items()):
+        wit = c["witness"]
+        chk.ob("R13.6", f"functions::signature-model::{k}", int(c["bad"]) == 0, site,  # type: ignore[arg-type]
+               f"{c['n']} definitions, {c['bad']} failing" + (f"; smallest: {wit[0]}" if wit else ""), witness=wit)  # type: ignore[index]
+    if unsupported:
+        raise AnchorError(f"{len(unsupported)} definitions cannot be modelled; first: {unsupported[0]}")
+
+
 def run(prog: Program, chk: Check) -> None:
     guard(chk, r13_1, prog, chk)
     guard(chk, r13_2, prog, chk)
     guard(chk, r13_3, prog, chk)
     guard(chk, r13_4, prog, chk)
     guard(chk, r13_5, prog, chk)
+    guard(chk, r13_6, prog, chk)
